@@ -3,7 +3,7 @@ from ..cfgq import Scope, returned_nodes, iter_chain
 from ..dataflow import consumption
 from ..exprs import strip, short_callee, show, leaf_name, walk
 from ..facts import AnalysisError
-from ..mir import callee_name
+from ..mir import callee_name, pl_local
 from ..panics import Inventory, assign_keys
 from ._totality import report_sites, report_loops, sanitize
 from ..spec.triage import C14_EXCEPTIONS, C14_LOOP_EXCEPTIONS, CUSTOM_ITER_OK
@@ -189,7 +189,16 @@ def run(ctx):
                 ctx.violation("c13.protocol", k2, "; ".join(probs) + ": build_from_node_list unwraps these fields", gen.loc(s.get("ln")))
             else:
                 ctx.ok("c13.protocol", k2, "TreeElement(%s) parent=%s elems=%s" % (ntype, show(parent)[:20], show(elems)[:20]), gen.loc(s.get("ln")))
-    # D3
+    # D3: who builds boxes.  The accumulator shape is decided for WallGeom::aabb and AABB::join (below); AABB::new and Default only store
+    # their arguments.  Any other function that constructs an AABB is a box constructor this rule has not read: cannot decide (exit 2).
+    from .. import support as S
+    unknown, few = S.box_constructors(prog)
+    for (m, k_, loc_) in few:
+        ctx.violation("c13.box", "c13.box|corners|%s" % m, S.FEW_CORNERS_TEXT % (m.split("::")[-1], k_), loc_)
+    if unknown:
+        raise AnalysisError("bounding boxes are also built by %s: a box constructor whose min/max structure this rule has not read (only WallGeom::aabb and "
+                            "AABB::join are decided); 'boxes contain their corners' cannot be decided for it" % unknown)
+    ctx.ok("c13.box", "c13.box|constructors", "boxes are built only by WallGeom::aabb, AABB::join (both decided below), AABB::new and Default", None)
     aabb = prog.method("types::opaques::WallGeom", "Bounded", "aabb")
     found = check_box_accumulators(ctx, aabb, label="WallGeom::aabb")
     ctx.floor("c13.box", "box accumulators", len(found), 6)
